@@ -279,7 +279,7 @@ def pids():
     return _PIDS
 
 
-def materialise(ws, layout, links=()):
+def materialise(ws, layout, links=(), strays=()):
     ws.mkdir(parents=True)
     (ws / ".__experimaestro__").touch()
     (ws / "jobs").mkdir()
@@ -289,6 +289,9 @@ def materialise(ws, layout, links=()):
     for ty, name, tty, target in norm_links(links):  # what `deprecated list --fix` leaves: jobs/<ty>/<name> -> jobs/<ty>/<target>
         (ws / "jobs" / ty).mkdir(exist_ok=True)
         (ws / "jobs" / ty / name).symlink_to(ws / "jobs" / tty / target)  # the target may be missing (dangling) or a link (chain)
+    for ty, name in strays:  # a plain file where a job directory is expected
+        (ws / "jobs" / ty).mkdir(exist_ok=True)
+        (ws / "jobs" / ty / name).write_text("not a job directory\n")
     for x in layout["xps"]:
         (ws / "xp" / x["name"]).mkdir()
         for k, entries in (("jobs", x["index"]), ("jobs.bak", x["backup"])):
@@ -452,6 +455,12 @@ def is_running(j):
     return j["pid"] and j["alive"] and not j["done"]
 
 
+def n5_signature(case, opts, raised):
+    """the run shows finding C19-N5 and nothing else: `--ready`, an entry of the store that is (or becomes) a non-directory,
+    and one of the two exceptions of the READY branch"""
+    return raised in ("UnboundLocalError", "AttributeError") and "--ready" in opts.get("flags", []) and bool(case.get("links") or case.get("strays"))
+
+
 def monitor_clean(ctx, case, ws, layout, opts, before, after, exc, states, fobj, ferr):
     """states: key -> implementation-derived state name before the command"""
     jobs = layout["jobs"]
@@ -500,7 +509,15 @@ def monitor_clean(ctx, case, ws, layout, opts, before, after, exc, states, fobj,
                 _filter_blame(ctx, flt, opts["text"], info, real_info_cached(case, ws, j), impl, jcase)
             else:
                 ctx.monitor_fail("clean:kept-selected-finished", f"jobs clean --perform kept {key} although it is finished, selected and in scope", jcase)
-    if exc is not None:
+    if exc is not None and n5_signature(case, opts, exc_name(exc)):
+        # C19-N5: the `--ready` branch of process() on a store entry that is not a directory (at that moment)
+        should = [f"{j['ty']}/{j['id']}" for j in jobs if f"{j['ty']}/{j['id']}" in remaining and opts["perform"] and (j["done"] or j["failed"]) and not j["pid"]
+                  and (flt is None or spec_eval(flt, {"state": states[f"{j['ty']}/{j['id']}"], "name": j["ty"], "tags": j["tags"]}))
+                  and (opts["experiment"] is None or (j["ty"], j["id"]) in index.get(opts["experiment"], set()))]
+        ctx.monitor_fail("clean:ready-on-non-directory:raised",
+                         f"jobs clean --ready raised {exc!r} on a store entry that is not a directory (dangling link / plain file / link whose target "
+                         f"was just cleaned) and stopped mid-way; finished selected jobs left uncleaned: {should[:4]}", case)
+    elif exc is not None:
         if flt is not None and fobj is None:  # createFilter itself raises: blame the atom
             info = {"state": None, "name": "a.t", "tags": {}}
             if jobs:
@@ -727,9 +744,9 @@ def infos_of(layout):
 
 
 def run_clean_case(ctx, c, q, lines, impls, root):
-    layout, opts, links = c["layout"], c["opts"], c.get("links", [])
+    layout, opts, links, strays = c["layout"], c["opts"], c.get("links", []), c.get("strays", [])
     ws = root / f"c{ctx.evaluations}"
-    materialise(ws, layout, links)
+    materialise(ws, layout, links, strays)
     raised, remaining, states = do_clean(ctx, c, ws, layout, opts)
     left_links = link_keys(ws)
     shutil.rmtree(ws)
@@ -737,24 +754,32 @@ def run_clean_case(ctx, c, q, lines, impls, root):
         lines.append({"op": "cleanL", "q": q, "layout": dict(layout_line(layout), links=[list(l) for l in norm_links(links)]), "opts": opts_line(opts),
                       "rx": rx_table(opts["filter"], infos_of(layout))})
         impls.append({"raised": raised is not None, "remaining": remaining, "links": left_links})
+        if n5_signature(c, opts, raised):  # outside the model (`--ready`): the monitor reports it, no comparison
+            lines[-1]["skip"] = "C19-N5"
+            ctx.count("store_links", "clean:ready-raised")
         ctx.count("store_links", "clean:" + ("dangling" if any(py_resolve(layout, links, (l[0], l[1])) is None for l in links) else "live"))
-    else:
+    else:  # a plain file in the store is no entry of the model (neither command looks at it)
         lines.append({"op": "clean", "q": q, "layout": layout_line(layout), "opts": opts_line(opts), "rx": rx_table(opts["filter"], infos_of(layout))})
         impls.append({"raised": raised is not None, "remaining": remaining})
+        if n5_signature(c, opts, raised):
+            lines[-1]["skip"] = "C19-N5"
+            ctx.count("store_links", "clean:ready-raised")
+    if strays:
+        ctx.count("store_links", "clean:stray-file")
     lines.append({"op": "state", "q": q, "jobs": layout_line(layout)["jobs"]})
     impls.append({"impl": [states[f"{j['ty']}/{j['id']}"] for j in layout["jobs"]]})
     n_removed = len(layout["jobs"]) - len(remaining)
     ctx.count("clean_outcome", "raised" if raised else ("removed-some" if 0 < n_removed < len(layout["jobs"]) else "removed-all" if n_removed else "removed-none"))
     ctx.count("clean_opts", ("xp" if opts["experiment"] else "-") + ("+filter" if opts["filter"] else "") + ("+perform" if opts["perform"] else ""))
     ctx.case({"kind": "clean", "jobs": [[j["ty"], j["id"], j["done"], j["failed"], j["pid"], j["alive"], j["tags"]] for j in layout["jobs"]], "xps": layout["xps"],
-              "links": [list(l) for l in links], "experiment": opts["experiment"], "filter": opts["text"], "perform": opts["perform"]},
+              "links": [list(l) for l in links], "strays": strays, "flags": opts.get("flags", []), "experiment": opts["experiment"], "filter": opts["text"], "perform": opts["perform"]},
              0 < n_removed < len(layout["jobs"]))
 
 
 def run_orphans_case(ctx, c, q, lines, impls, root):
     layout, opts, links = c["layout"], c["opts"], [tuple(l) for l in c.get("links", [])]
     ws = root / f"o{ctx.evaluations}"
-    materialise(ws, layout, links)
+    materialise(ws, layout, links, c.get("strays", []))
     raised, remaining = do_orphans(ctx, c, ws, layout, opts, links)
     left_links = link_keys(ws)
     shutil.rmtree(ws)
@@ -827,13 +852,17 @@ def gen_case(rng, kind):
         c = {"kind": "clean", "layout": layout, "opts": gen_clean_opts(rng, layout)}
         if rng.random() < 0.12 and layout["jobs"]:
             c["links"] = gen_links(rng, layout)
-            # `--ready` on a store entry that is not a directory raises (finding C19-N5, reported separately)
-            c["opts"]["flags"] = [f for f in c["opts"]["flags"] if f != "--ready"]
+        if rng.random() < 0.05 and layout["jobs"]:  # a plain file where a job directory is expected
+            c["strays"] = [[rng.choice(layout["jobs"])["ty"], "stray"]]
+        if c.get("links") or c.get("strays"):  # the listing flags matter on entries that are not directories
+            c["opts"]["flags"] = [f for f in ("--tags", "--fullpath", "--ready") if rng.random() < 0.4]
         return c
     if kind == "orphans":
         c = {"kind": "orphans", "layout": layout, "opts": gen_orph_opts(rng)}
         if rng.random() < 0.15 and layout["jobs"]:  # what `deprecated list --fix` leaves behind, chains, dangling links
             c["links"] = gen_links(rng, layout)
+        if rng.random() < 0.04 and layout["jobs"]:
+            c["strays"] = [[rng.choice(layout["jobs"])["ty"], "stray"]]
         return c
     cmds = []
     for _ in range(rng.choice([2, 2, 3])):
@@ -912,6 +941,8 @@ def run_cases(ctx, cases, q, with_model=True):
             ii = _canon(i)
         else:
             mi, ii = {"remaining": m.get("remaining")}, _canon(i)
+        if line.get("skip"):
+            continue
         ctx.traces_validated += 1
         if mi != ii:
             ctx.disagree(line, mi, ii, f"model and implementation differ ({op})")
